@@ -52,6 +52,9 @@ def run_c13(ctx):
         raise Infra("the harness could not establish %d of %d blocking states" % (len(notreached), len(recs)))
     for b in bad:
         r = b["rec"]
+        if b["what"] == "WriteErrorLost":
+            ctx.notes.append("a write error was lost on the way out of the sshd worker (reported by the C05 check)")
+            continue
         if b["what"] == "LoginDropped":
             ctx.notes.append("a login blocked in the hand-off was dropped while the correlator was busy (reported by the C05 check)")
             continue
@@ -187,7 +190,7 @@ def run_daemon_scenario(ctx, binp, idx, cause, load):
     errf = open(os.path.join(d, "stderr.txt"), "w")
     argv = [binp, "--sshd-pipe-path", sp, "--auditd-pipe-path", ap, "--app-events-output", outpath]
     blocker = None
-    if load == "http":
+    if load in ("http", "http-stalled"):
         argv += ["--healthz", "--metrics", "--audit-metrics", "--audit-seconds-interval", "1s"]
         if cause == "http-port-busy":
             import socket
@@ -229,6 +232,30 @@ def run_daemon_scenario(ctx, binp, idx, cause, load):
             rec.update(exited=True, status=proc.returncode)
             return rec
         rec["started"] = True
+        stalled = None
+        if load == "http-stalled":
+            # a scraper that went deaf: many pipelined requests on one connection, nothing ever read - a handler ends up
+            # stuck writing its response; the daemon must still stop when a worker fails
+            import socket
+            try:
+                stalled = socket.create_connection(("127.0.0.1", 2112), timeout=2)
+                stalled.setsockopt(socket.SOL_SOCKET, socket.SO_RCVBUF, 4096)
+                stalled.setblocking(False)
+                req = b"GET /metrics HTTP/1.1\r\nHost: x\r\n\r\n" * 50
+                dl = time.time() + 8
+                sent, last = 0, time.time()
+                while time.time() < dl and sent < 64 << 20:
+                    try:
+                        sent += stalled.send(req)
+                        last = time.time()
+                    except BlockingIOError:
+                        # nothing accepted for a second: the server has stopped reading, its handler is stuck in Write
+                        if time.time() - last > 1.0:
+                            break
+                        time.sleep(0.02)
+                rec["stalled_bytes"] = sent
+            except OSError:
+                rec["started"] = False
         if load == "http":
             # the readiness endpoint of the running daemon answers (C18 at daemon level: informational)
             try:
@@ -310,6 +337,11 @@ def run_daemon_scenario(ctx, binp, idx, cause, load):
         if proc.poll() is None:
             proc.kill()
             proc.wait()
+        try:
+            if stalled is not None:
+                stalled.close()
+        except (OSError, NameError):
+            pass
         for fd in (sw, aw, outreader):
             if fd is not None:
                 try:
@@ -350,7 +382,8 @@ def run_c08(ctx):
             recs += res
             idx += len(batch)
         # with the HTTP server enabled (fixed port 2112: one at a time)
-        for c, l in (("sigterm", "http"), ("audit-malformed", "http"), ("sshd-eof", "http"), ("http-port-busy", "http")):
+        for c, l in (("sigterm", "http"), ("audit-malformed", "http"), ("sshd-eof", "http"), ("http-port-busy", "http"),
+                     ("sshd-eof", "http-stalled"), ("sigterm", "http-stalled")):
             recs.append(run_daemon_scenario(ctx, binp, idx, c, l))
             idx += 1
     tp = ctx.path("trace.ndjson")
